@@ -36,8 +36,13 @@ def gen_case(rng, ctx):
     cls, ds = gen.dataset(rng, classes="D1 D2 D3 D3 D4 D5 D6 D6 D7 D8", nmax=8, mmax=7)
     ds = libx.normalise_raw(ds)
     which = rng.random()
+    if which < 0.12:
+        # hostile class: several distinct input rankings at the extreme score 0 (ties are free, rankings differ by ties)
+        cls, ds = gen.dataset(rng, cls="D13", nmax=7, mmax=6)
+        ds = libx.normalise_raw(ds)
+        return {"ds": ds, "scheme": gen.scheme_free_ties(rng), "dcls": cls, "scls": "S9", "one": rng.random() < 0.3}
     if which < 0.25:
-        scls, sch = "unifying-multiple", gen.scale(ref.PRESETS["unifying"], rng.choice([1.0] + gen.SCALES))
+        scls, sch = "unifying-multiple", gen.scale(ref.PRESETS["unifying"], rng.choice([1.0] + gen.SCALES + gen.ODD_SCALES))
     elif which < 0.5:
         scls, sch = "unifying-lookalike", unifying_lookalike(rng)
     else:
@@ -106,6 +111,8 @@ def check_case(case, ctx):
         got = {ref.canon(r) for r in rankings}
         if len(minimal) >= 2:
             ctx.count("several_minima")
+            if best == 0:
+                ctx.count("several_minima_at_score_zero")
         if not minimal <= got:
             ctx.violation("C10/minimal-input-ranking-missing", f"all minimal rankings requested: {len(got)} distinct "
                           f"returned, {len(minimal)} distinct minimal input rankings exist", sub,
@@ -121,7 +128,8 @@ def reach(counters, tier, info):
     out = []
     for name, key, need in [("accepted cases judged", "accepted", 1000 * k), ("refusals expected", "refusals_expected", 300 * k),
                             ("look-alike refusals expected", "lookalike_refusals_expected", 100 * k),
-                            ("all-requested cases with >= 2 distinct minima", "several_minima", 100 * k)]:
+                            ("all-requested cases with >= 2 distinct minima", "several_minima", 100 * k),
+                            ("all-requested cases with >= 2 distinct minima of score 0", "several_minima_at_score_zero", 40 * k)]:
         v = counters.get(key, 0)
         out.append({"name": name, "observed": v, "required": need, "ok": v >= need})
     return out
